@@ -9,6 +9,7 @@ def jobs(tier, seed):
     J = [dict(name="server_order", harness="server_order.c", real=[], support=["vp_rt.c", "world.c", "vsock.c"], unwind=4,
               bound="server_sort_cb and the deadline comparator on three elements with ALL field values symbolic")]
     J += mjobs.health_jobs(tier)
+    J += mjobs.requeue_jobs(tier)  # a finished probe releases its server
     sq = [j for j in mjobs.sendquery_jobs(tier) if "_sib0" in j["name"]]
     if tier == "quick":  # the other combinations run in C01/C10 and in the thorough tier here
         sq = [j for j in sq if j["name"] in ("sendquery_srv2_vc0_ex0_sib0", "sendquery_srv2_vc1_ex0_sib0", "sendquery_srv1_vc0_ex1_sib0")]
